@@ -208,7 +208,7 @@ def check_config(config: dict) -> None:
             "lambda_minus_one interface must be less than the first interface!"
         )
 
-    if quantis and lambda_minus_one:
+    if quantis and lambda_minus_one is not False:
         raise TOMLConfigError("Cannot run quantis with lambda_minus_one!")
 
     if n_ens < 2:
